@@ -159,7 +159,8 @@ def _dumpstruct(
 
         if color:
             foreground, background = colors[ci % len(colors)]
-            size = structure._sizes.get(field._name)
+            # Instances that were constructed instead of read from a stream have no recorded sizes at all
+            size = getattr(structure, "_sizes", {}).get(field._name)
             if size is None:
                 # Bit fields (and fields that occupy no bytes) have no recorded size of their own
                 # The first bit field of a storage unit stands in for the whole unit
